@@ -57,6 +57,32 @@ func ruleC05Discipline(c *Ctx) {
 					n++
 					c.violate("C05.discipline", "narrow:"+name, x.Pos(), name, "a Count64 is narrowed to Count32 by a raw conversion")
 				}
+			case *ssa.Store:
+				// a counter forced to its capacity: justified only by the
+				// overflow of a counter of the same width
+				k := countKind(x.Val.Type())
+				u, isConst := constUint(x.Val)
+				if k == "" || !isConst || u != capacityOf(k) {
+					return
+				}
+				n++
+				for _, fct := range factsAt(x.Block()) {
+					cond, truth := normCond(fct.Cond, fct.Truth)
+					if !truth {
+						continue
+					}
+					if ex, ok := cond.(*ssa.Extract); ok && ex.Index == 1 {
+						if call, ok := ex.Tuple.(*ssa.Call); ok && len(call.Call.Args) > 0 && countKind(call.Call.Args[0].Type()) == k {
+							return
+						}
+					}
+					if cmp, ok := cond.(*ssa.BinOp); ok && (cmp.Op == token.EQL || cmp.Op == token.GEQ) && countKind(cmp.X.Type()) == k {
+						if v, ok := constUint(cmp.Y); ok && v == capacityOf(k) {
+							return
+						}
+					}
+				}
+				c.violate("C05.discipline", "rawstore:"+name, x.Pos(), name, fmt.Sprintf("a %s is set to its capacity without a counter of that width having overflowed: the quantity is reported as saturated although the true value may be far below the capacity", k))
 			}
 		})
 	}
@@ -82,6 +108,13 @@ func ruleC05Discipline(c *Ctx) {
 	c.Stats["counter_update_edges"] = len(e.Edges)
 	c.present("C05.discipline", "scan", token.NoPos, fmt.Sprintf("scanned %d functions outside package counts for raw arithmetic / conversions on counters; %d site(s) examined", len(c.ModFns), n))
 	c.controlC05()
+}
+
+func capacityOf(kind string) uint64 {
+	if kind == "Count32" {
+		return 1<<32 - 1
+	}
+	return 1<<64 - 1
 }
 
 // controlC05: positive control — the rule's pattern must match a raw `+`
